@@ -88,6 +88,10 @@ func main() {
 	for _, f := range shimFiles {
 		repl[filepath.Join(*repo, "vhook", filepath.Base(f))] = f
 	}
+	vaFiles, _ := filepath.Glob(filepath.Join(*shim, "vatomic", "*.go"))
+	for _, f := range vaFiles {
+		repl[filepath.Join(*repo, "vhook", "vatomic", filepath.Base(f))] = f
+	}
 	// env dump file
 	dump := filepath.Join(*out, "env_dump_verif.go")
 	os.WriteFile(dump, []byte(envDump), 0o644)
@@ -258,6 +262,15 @@ func rewriteEnv(fset *token.FileSet, af *ast.File, total map[string]int) int {
 			im.Name = ast.NewIdent("sync")
 			n++
 			total["env.syncimport"]++
+		}
+		if im.Path.Value == `"sync/atomic"` {
+			// every atomic operation of the env package becomes a schedule point
+			im.Path.Value = `"github.com/mattn/anko/vhook/vatomic"`
+			if im.Name == nil {
+				im.Name = ast.NewIdent("atomic")
+			}
+			n++
+			total["env.atomicimport"]++
 		}
 	}
 	type acc struct {
